@@ -134,6 +134,10 @@ def run(chk, replay):
         # the working directory changes between runs on plotfiles typed under a relative name (PoolEnv.tla)
         from harness import poolenv
         poolenv.tool_phase(chk, "whip")
+        # hierarchies whose levels refine by 4, or by different ratios from one jump to the next (Refine.tla): a level's cells are
+        # Fac(l) = the PRODUCT of the ratios below it per level-0 cell
+        from harness import refine
+        refine.phase(chk, "grid")
 
 
 def _run(chk, replay):
